@@ -42,13 +42,25 @@ def rule_trim_writers(ctx: Ctx) -> RuleResult:
         raise AnalysisError("_adjust_trim_top.ensure_bounds not found")
     rets = [n for n in eb.own_nodes() if isinstance(n, ast.Return)]
     prm = eb.params[0]
+    # the locals by role: the content height (<canvas parameter>.rows()) and the view height (second component of size)
+    CR = MR = None
+    for n in adj.own_nodes():
+        if isinstance(n, ast.Assign) and len(n.targets) == 1:
+            t, val = n.targets[0], n.value
+            if isinstance(t, ast.Name) and isinstance(val, ast.Call) and isinstance(val.func, ast.Attribute) and val.func.attr == "rows" and isinstance(val.func.value, ast.Name) and val.func.value.id == adj.params[1]:
+                CR = t.id
+            if isinstance(t, ast.Tuple) and len(t.elts) == 2 and isinstance(val, ast.Name) and val.id == adj.params[2] and isinstance(t.elts[1], ast.Name):
+                MR = t.elts[1].id
+    if CR is None or MR is None:
+        raise AnalysisError("_adjust_trim_top: content height / view height locals not identified")
     txt = ast.unparse(rets[0].value) if len(rets) == 1 else ""
-    ok_forms = {f"max(0, min(canv_rows - maxrow, {prm}))", f"max(0, min({prm}, canv_rows - maxrow))", f"min(max(0, {prm}), canv_rows - maxrow)", f"min(canv_rows - maxrow, max(0, {prm}))", f"min(max({prm}, 0), canv_rows - maxrow)", f"max(min({prm}, canv_rows - maxrow), 0)", f"max(min(canv_rows - maxrow, {prm}), 0)"}
+    D = f"{CR} - {MR}"
+    ok_forms = {f"max(0, min({D}, {prm}))", f"max(0, min({prm}, {D}))", f"min(max(0, {prm}), {D})", f"min({D}, max(0, {prm}))", f"min(max({prm}, 0), {D})", f"max(min({prm}, {D}), 0)", f"max(min({D}, {prm}), 0)"}
     rr.inst("ensure_bounds body", True, {"ensure_bounds_returns": txt})
     if txt not in ok_forms:
         rr.add(finding("WRITER", eb, eb.node, f"ensure_bounds returns `{txt}`, which is not the value clamped to [0, canv_rows - maxrow]: the scroll position can leave the content", construct=f"ensure_bounds body {txt}"))
     # early return for content that fits
-    fits = [n for n in cfg.nodes if n.kind == "test" and ast.unparse(n.ast) in ("canv_rows <= maxrow", "maxrow >= canv_rows")]
+    fits = [n for n in cfg.nodes if n.kind == "test" and ast.unparse(n.ast) in (f"{CR} <= {MR}", f"{MR} >= {CR}")]
     for fi, _s, st in prog.attr_stores(p, cls, "_trim_top"):
         ident = f"{short(fi)}:{norm(st, 60)}"
         v = getattr(st, "value", None)
@@ -77,11 +89,11 @@ def rule_trim_writers(ctx: Ctx) -> RuleResult:
             form = "literal 0"
         elif isinstance(v, ast.Call) and callee_name(v) == "max" and len(v.args) == 2 and any(isinstance(a, ast.Constant) and a.value == 0 for a in v.args):
             form = "max(0, .)"
-        elif vt == "canv_rows - maxrow":
+        elif vt == D:
             if fits and all(n not in ExcEngine._reach_without_edge(cfg, fits[0], "F") for n in sn):
                 form = "canv_rows - maxrow (content taller than the view)"
-        elif vt == "cursrow":
-            tests = [n for n in cfg.nodes if n.kind == "test" and ast.unparse(n.ast) in ("cursrow < self._trim_top", "self._trim_top > cursrow")]
+        elif isinstance(v, ast.Name):
+            tests = [n for n in cfg.nodes if n.kind == "test" and ast.unparse(n.ast) in (f"{vt} < self._trim_top", f"self._trim_top > {vt}")]
             if tests and all(n not in ExcEngine._reach_without_edge(cfg, tests[0], "T") for n in sn):
                 form = "cursor row above the view"
         rr.inst(ident, True, {"writer": short(fi), "store": norm(st, 60), "form": form} if len(rr.samples) < 8 else None)
@@ -130,22 +142,46 @@ def rule_slice_translation(ctx: Ctx) -> RuleResult:
     return rr
 
 
+def _scrollbar_roles(p, rn, du):
+    """Names of ScrollBar.render's locals by role (robust against renaming):
+    (top, thumb, bottom) = the counts of the three row generators handed to CanvasCombine, in order;
+    sb_width = the width of the SolidCanvas parts; ow_size = the tuple built from self._scrollbar_width;
+    (maxcol, maxrow) = the unpacking of the size parameter."""
+    roles = {}
+    for c in rn.own_nodes():
+        if isinstance(c, ast.Call) and callee_name(c) == "CanvasCombine" and c.args:
+            rs = [x.args[0].id for x in ast.walk(c.args[0]) if isinstance(x, ast.Call) and isinstance(x.func, ast.Name) and x.func.id == "range" and x.args and isinstance(x.args[0], ast.Name)]
+            if len(rs) == 3:
+                roles["top"], roles["thumb"], roles["bottom"] = rs
+    ws = {c.args[1].id for c in rn.own_nodes() if isinstance(c, ast.Call) and callee_name(c) == "SolidCanvas" and len(c.args) >= 2 and isinstance(c.args[1], ast.Name)}
+    if len(ws) == 1:
+        roles["sb_width"] = ws.pop()
+    for n in rn.own_nodes():
+        if isinstance(n, ast.Assign) and len(n.targets) == 1 and isinstance(n.targets[0], ast.Name) and isinstance(n.value, ast.Tuple) and "_scrollbar_width" in ast.unparse(n.value):
+            roles["ow_size"] = n.targets[0].id
+        if isinstance(n, ast.Assign) and isinstance(n.targets[0], ast.Tuple) and len(n.targets[0].elts) == 2 and isinstance(n.value, ast.Name) and n.value.id == rn.params[1] and all(isinstance(e, ast.Name) for e in n.targets[0].elts):
+            roles["maxcol"], roles["maxrow"] = (e.id for e in n.targets[0].elts)
+    missing = [k for k in ("top", "thumb", "bottom", "sb_width", "ow_size", "maxcol", "maxrow") if k not in roles]
+    if missing:
+        raise AnalysisError(f"ScrollBar.render: could not identify the locals playing the roles {missing}")
+    return roles
+
+
 def rule_scrollbar_parts(ctx: Ctx) -> RuleResult:
     p = ctx.p
     rr = RuleResult("PAIR", "C20.3", "ScrollBar: bottom part = maxrow - thumb_height - top_height; bar width = maxcol - child width; child drawn at (child width, maxrow)", floor=3)
     rn = p.func(f"{SB}.render")
     du = DefUse(rn)
-    cfg = du.cfg
+    R = _scrollbar_roles(p, rn, du)
 
     def single(name):
-        ds = [(dn, v) for dn, v, how in du.defs.get(name, []) if v is not None and not isinstance(v, type(None))]
-        return ds
+        return [(dn, v) for dn, v, how in du.defs.get(name, []) if v is not None and isinstance(v, ast.AST)]
 
-    b = single("bottom_height")
-    rr.inst("bottom remainder", True)
-    if len(b) != 1 or linear(b[0][1]) != {"maxrow": 1, "thumb_height": -1, "top_height": -1}:
-        rr.add(finding("PAIR", rn, b[0][0].stmt if b else rn.node, f"bottom_height is `{ast.unparse(b[0][1]) if b else '?'}`, not the remainder maxrow - thumb_height - top_height: the three parts do not sum to the view height", construct="bottom_height not the remainder"))
-    w = single("sb_width")
+    b = single(R["bottom"])
+    rr.inst("bottom remainder", True, {"roles": R})
+    if len(b) != 1 or linear(b[0][1]) != {R["maxrow"]: 1, R["thumb"]: -1, R["top"]: -1}:
+        rr.add(finding("PAIR", rn, b[0][0].stmt if b else rn.node, f"the bottom part is `{ast.unparse(b[0][1]) if b else '?'}`, not the remainder maxrow - thumb - top: the three parts do not sum to the view height", construct="bottom_height not the remainder"))
+    w = single(R["sb_width"])
     rr.inst("bar width remainder", True)
     from ..rules.geom import fold_subscripts
 
@@ -154,8 +190,8 @@ def rule_scrollbar_parts(ctx: Ctx) -> RuleResult:
     if len(w) == 1:
         at = w[0][0]
         L = linear(fold_subscripts(du.expand(w[0][1], at)))
-        child_w = linear(fold_subscripts(du.expand(ast.parse("ow_size[0]", mode="eval").body, at)))
-        total = linear(fold_subscripts(du.expand(ast.Name(id="maxcol", ctx=ast.Load()), at)))
+        child_w = linear(fold_subscripts(du.expand(ast.parse(f"{R['ow_size']}[0]", mode="eval").body, at)))
+        total = linear(fold_subscripts(du.expand(ast.Name(id=R["maxcol"], ctx=ast.Load()), at)))
         got = lin_str(L)
         if L is not None and child_w is not None and total is not None:
             want = dict(total)
@@ -163,13 +199,12 @@ def rule_scrollbar_parts(ctx: Ctx) -> RuleResult:
                 want[k] = want.get(k, 0) - v
             okw = {k: v for k, v in want.items() if v} == L
     if not okw:
-        rr.add(finding("PAIR", rn, w[0][0].stmt if w else rn.node, f"sb_width is `{got}`, not maxcol minus the width the child is drawn at (ow_size[0]): child and bar do not fill the line exactly", construct="sb_width not the remainder"))
-    o = single("ow_size")
+        rr.add(finding("PAIR", rn, w[0][0].stmt if w else rn.node, f"the bar width is `{got}`, not maxcol minus the width the child is drawn at: child and bar do not fill the line exactly", construct="sb_width not the remainder"))
+    o = single(R["ow_size"])
     rr.inst("child size", True)
-    ok = len(o) == 1 and isinstance(o[0][1], ast.Tuple) and len(o[0][1].elts) == 2 and ast.unparse(o[0][1].elts[1]) == "maxrow" and "maxcol - self._scrollbar_width" in ast.unparse(o[0][1].elts[0])
+    ok = len(o) == 1 and isinstance(o[0][1], ast.Tuple) and len(o[0][1].elts) == 2 and ast.unparse(o[0][1].elts[1]) == R["maxrow"] and f"{R['maxcol']} - self._scrollbar_width" in ast.unparse(o[0][1].elts[0])
     if not ok:
-        rr.add(finding("PAIR", rn, o[0][0].stmt if o else rn.node, "ow_size is not (maxcol - bar width [clamped at 0], maxrow)", construct="ow_size form"))
-    # the joined list gives the child ow_size[0] columns and the bar sb_width
+        rr.add(finding("PAIR", rn, o[0][0].stmt if o else rn.node, "the child size is not (maxcol - bar width [clamped at 0], maxrow)", construct="ow_size form"))
     return rr
 
 
@@ -226,18 +261,16 @@ def rule_query_size(ctx: Ctx) -> RuleResult:
     rr = RuleResult("GEOM", "C20.5", "the thumb geometry derives only from queries made with the size the wrapped widget is drawn at (ow_size)", floor=4)
     rn = p.func(f"{SB}.render")
     du = DefUse(rn)
-    geom = {}
-    for n in rn.own_nodes():
-        if isinstance(n, ast.Assign) and len(n.targets) == 1 and isinstance(n.targets[0], ast.Name) and n.targets[0].id in ("thumb_height", "top_weight", "top_height"):
-            geom[n.targets[0].id] = n
-    if "thumb_height" not in geom or "top_weight" not in geom:
-        raise AnalysisError("ScrollBar.render: thumb_height / top_weight assignments not found")
-    inputs = set()
-    for a in geom.values():
-        inputs |= {x.id for x in ast.walk(a.value) if isinstance(x, ast.Name)}
-    inputs -= {"maxrow", "max", "min", "round", "float", "int", "thumb_height", "top_weight", "top_height"}
+    R = _scrollbar_roles(p, rn, du)
+    start_node = None
+    for n in du.cfg.nodes:
+        if isinstance(n.ast, ast.Assign) and any(isinstance(t, ast.Name) and t.id == R["bottom"] for t in n.ast.targets):
+            start_node = n
+    if start_node is None:
+        raise AnalysisError("ScrollBar.render: the assignment of the bottom part was not found")
+    skip = {R["maxrow"], R["maxcol"], rn.params[1], "focus", "max", "min", "round", "float", "int"}
     seen = set()
-    work = [(nm, du.node_of(geom["thumb_height"])) for nm in sorted(inputs)]
+    work = [(R["thumb"], start_node), (R["top"], start_node)]
     calls = []
     while work:
         nm, at = work.pop()
@@ -248,15 +281,15 @@ def rule_query_size(ctx: Ctx) -> RuleResult:
             for x in ast.walk(v):
                 if isinstance(x, ast.Call) and isinstance(x.func, ast.Attribute) and x.func.attr in QUERIES and x.args:
                     calls.append((nm, x, dn))
-                elif isinstance(x, ast.Name) and isinstance(x.ctx, ast.Load) and x.id in du.defs and x.id not in ("maxrow", "maxcol", "size", "focus"):
+                elif isinstance(x, ast.Name) and isinstance(x.ctx, ast.Load) and x.id in du.defs and x.id not in skip:
                     work.append((x.id, dn))
     for nm, c, dn in calls:
-        ident = f"{nm}<-{norm(c, 50)}"
+        ident = f"{norm(c, 50)}"
         arg = du.text(c.args[0], dn)
-        want = du.text(ast.Name(id="ow_size", ctx=ast.Load()), dn)
+        want = du.text(ast.Name(id=R["ow_size"], ctx=ast.Load()), dn)
         rr.inst(ident, True, {"geometry_input": nm, "query": norm(c, 60), "size_argument": ast.unparse(c.args[0])} if len(rr.samples) < 6 else None)
         if arg != want:
-            rr.add(finding("GEOM", rn, c, f"`{norm(c, 60)}` feeds the thumb geometry (through `{nm}`) but asks the wrapped widget about size `{ast.unparse(c.args[0])}`, not the size it is drawn at (ow_size): content that wraps differently one column narrower gives a position beyond the computed maximum and the bar parts no longer sum to the view height", construct=f"{nm} from {norm(c, 50)} with {ast.unparse(c.args[0])}"))
+            rr.add(finding("GEOM", rn, c, f"`{norm(c, 60)}` feeds the thumb geometry (through `{nm}`) but asks the wrapped widget about size `{ast.unparse(c.args[0])}`, not the size it is drawn at (ow_size): content that wraps differently one column narrower gives a position beyond the computed maximum and the bar parts no longer sum to the view height", construct=f"thumb input from {norm(c, 50)} with {ast.unparse(c.args[0])}"))
     return rr
 
 
